@@ -221,4 +221,8 @@ def jobs(tier):
         n = 4 if gk == 'Image2D' else 3
         J.append(Job(f'Samples.diagnostics:chains_unpermuted:{gk}', lambda c, gk=gk, n=n: diagnostics_receive_chains(c, gk, n), 'Pbox',
                      F('Samples.to_arviz_inferencedata', 'Samples.compute_ess', 'Samples.compute_rhat')))
+    # statistics are taken on the vector form of function-value samples: the conversion contracts of C13 (column k of the vector form
+    # is fun2vec of sample k, also for column-major images and mapped geometries) are claimed for this property as well
+    from contracts import C13 as _c13
+    J += [j for j in _c13.jobs(tier) if j.id.endswith(':Samples_conversions') and j.id.split(':Samples')[0] in ('Image2D:F', 'Image2D:C', 'Mapped:Image2D', 'Continuous2D')]
     return J
